@@ -92,6 +92,33 @@ CLAIMED = {
         note=COMMON_NOTE + 'GIL switch points other than the forced ones are whatever CPython produces; registrations after close() are outside the '
              'documented contract. Two defects found and fixed here: F-I1 (lost registration) and F-I2 (exit-check read order).',
         technique='Lean 4 invariant proof over label lists (LTS) + trace-acceptance correspondence under bytecode-level forced preemption'),
+    'C01': dict(
+        text=('Theorems: the FSM table regenerated from nextline/fsm/config.py contains only the documented transitions, closed has no way out, one transition per (trigger, source), invalid triggers are neither ignored nor queued (decide on the generated table); a refused run/reset raises MachineError and changes nothing, for every state; which requests are refused; in every reachable state of model A every operation publishes on state_name a walk along documented edges from the current state to the new one, and the attribute changes only that way; closed is never left. Tied to /repo by the translator (table) and by exact correspondence of model A with the real Nextline + simulated child on all short serial histories and seeded random long ones (stock-order and random schedules), plus overlapping calls from 2–3 tasks under a permuting event loop with the state attribute sampled after every scheduler step (oracle).'),
+        design='§6 C01, App. A',
+        note=COMMON_NOTE + 'Theorems are about serial histories (no lifecycle call issued while another is in progress), which is where the property can hold: overlapping calls interfere through transitions\' cancellation of in-flight triggers — known findings F-A2/F-A2c/F-A2d/F-A3 (open), matched by violation kind so that any other misbehaviour under overlap is still reported. transitions/apluggy/asyncio are modelled, not verified.',
+        technique='Lean 4 proofs over a deterministic API-level model + generated FSM table (translator) + differential correspondence with a simulated child under a permuting event loop'),
+    'C03': dict(
+        text=('Theorems over model A: close() never raises in any reachable state; a second close() does nothing; when no run is in progress the first close() returns at once with the broker closed (every earlier subscription terminates, by C08), state closed, no child alive; while a run is in progress close() waits and, whatever else the environment does, returns as soon as the child exits — however it ends — with state closed and no child alive. Tied to /repo by exact correspondence (close issued at every point of every short serial history, from a fresh task each time, subscribers attached before and after start) and an oracle; overlapping calls under the permuting loop (oracle).'),
+        design='§6 C03',
+        note=COMMON_NOTE + 'Theorems are about serial histories (no lifecycle call issued while another is in progress), which is where the property can hold: overlapping calls interfere through transitions\' cancellation of in-flight triggers — known findings F-A2/F-A2c/F-A2d/F-A3 (open), matched by violation kind so that any other misbehaviour under overlap is still reported. transitions/apluggy/asyncio are modelled, not verified.',
+        technique='Lean 4 proofs over a deterministic API-level model + generated FSM table (translator) + differential correspondence with a simulated child under a permuting event loop'),
+    'C15': dict(
+        text=('Theorems over model A: a child is alive exactly while the state is running; run/reset while running are refused and change nothing; an operation starts at most one child and only when none is alive; once finished is published the child has exited. Tied to /repo by exact correspondence on serial histories with the number of live simulated children sampled after every operation, and overlapping run/run, run/reset, reset/run, run/close under the permuting loop with live children sampled after every scheduler step (oracle).'),
+        design='§6 C15',
+        note=COMMON_NOTE + 'Theorems are about serial histories (no lifecycle call issued while another is in progress), which is where the property can hold: overlapping calls interfere through transitions\' cancellation of in-flight triggers — known findings F-A2/F-A2c/F-A2d/F-A3 (open), matched by violation kind so that any other misbehaviour under overlap is still reported. transitions/apluggy/asyncio are modelled, not verified.',
+        technique='Lean 4 proofs over a deterministic API-level model + generated FSM table (translator) + differential correspondence with a simulated child under a permuting event loop'),
+    'C17': dict(
+        text=('Theorems over model H (control flow of run_in_process/_run and RunningProcess.__await__): awaiting never raises; at most one of value / '
+              'exception; the outcome table (value; exception for raise, unpicklable result, SystemExit, uncaught KeyboardInterrupt; neither for hard exit '
+              'and signals); on every path the executor is shut down (off the event-loop thread) and the log listener stopped last. This is a finite '
+              'decision table — its worth is the correspondence: the real run_in_process under spawn is swept over every outcome × signal instants from '
+              'interpreter boot to racing completion × {log collection, initializer} + a log backlog larger than a pipe buffer, each case in its own '
+              'sub-process with a wall-clock bound, checking result, exit code, liveness, leftover tasks, and agreement with the model for the outcome '
+              'class that occurred.'),
+        design='§6 C17, §5 model H',
+        note=COMMON_NOTE + 'Partial by nature: reaping, thread clean-up and what the future resolves to for each way of dying are concurrent.futures/'
+             'multiprocessing behaviour (modelled in futureOf, observed by the sweep). Defect F-H1 (event loop blocked in executor shutdown) found and fixed here.',
+        technique='Lean 4 decision-table proof + real-process outcome/signal sweep compared with the model'),
 }
 
 REASON_TODO = 'check not built yet in this revision of /verif (planned, see DESIGN.md §6); not claimed until its theorems and correspondence exist'
